@@ -53,7 +53,7 @@ func main() {
 		raceDir, _ := os.MkdirTemp("", "verif-c03-race-")
 		r.Cleanup(func() { os.RemoveAll(raceDir) })
 		worker.Run(r, worker.Opts{Phase: "race", Total: r.N(120, 1200), Batch: 40, Bin: bin, Timeout: 30 * time.Minute,
-			Env: []string{"GORACE=halt_on_error=0 log_path=" + filepath.Join(raceDir, "race")}})
+			Env: []string{"GORACE=halt_on_error=0 exitcode=0 log_path=" + filepath.Join(raceDir, "race")}})
 		mon.ReportRaces(r, raceDir)
 	}
 	r.Finish(r.N(100, 1500))
